@@ -28,6 +28,7 @@ type Profile struct {
 	MaxOpen      int            `json:"maxOpen"`
 	Twin         string         `json:"twin"`         // "" | "reset" | "load"
 	WeightsB     map[string]int `json:"weightsAfter"` // weights once a "load" twin exists
+	PermuteTypes bool           `json:"permuteTypes"`
 	GCEvery      int            `json:"gcEvery"`
 	TrackPay     bool           `json:"trackPayloads"`
 	Generic      bool           `json:"generic"`      // drive the generic API (static component types at ids 0..12)
